@@ -10,6 +10,8 @@
    implementation by tools/harness/c05.py. *)
 From P7 Require Import Prelude PyPrims Number Header Cost CostProofs.
 Require P7.Decomp.
+From P7 Require DecompGen.
+From P7gen Require DecompChain.
 Open Scope Z_scope.
 
 (* ---- 1. where the elements are read one by one, a count cannot force work beyond the input ---- *)
@@ -214,3 +216,18 @@ Example C05_cost_examples :
   read_digest_iters (2 ^ 63) (2 ^ 20) 100 = 2 /\
   parse_header 10 [1; 5; 3; 0; 0] <> Err EFuel /\ parse_header 2 [1; 5; 3; 0; 0] = Err EFuel.
 Proof. vm_compute. repeat split; try reflexivity. discriminate. Qed.
+
+(* ---- third wave (stage 7): SevenZipDecompressor._decompress / _read_data / decompress as translated on this run from
+   py7zr/compressor.py (gen/DecompChain.v) ARE Decomp.v's run_chain / read_data / decompress: for every object state, every
+   file content, every max_length and every read-schedule element rd (the most this call's fp.read returns), with the same
+   abstract stage decoders `dstep` on both sides.  DecompGen.st_of o fp is the model state of the object o with the unread
+   file fp; DecompGen.of_st st digest delivered the object of a model state (self.digest / self._delivered are not in
+   Decomp.v's state).  The digest goes through the generated helpers.calculate_crc32 (fuel for its block loop). ---- *)
+
+Theorem C05_gen_decompress_is_model_call :
+  forall (stage : Type) (dstep : stage -> bytes -> Z -> stage * bytes) (zcrc32 : bytes -> Z -> Z)
+         (self o' : DecompChain.SevenZipDecompressor stage) fp fp' fuel ml rd out,
+  DecompChain.SevenZipDecompressor_decompress stage dstep zcrc32 self fp fuel ml rd = Ok ((o', out), fp') ->
+  Decomp.decompress dstep (DecompGen.st_of stage self fp) ml rd = Ok (DecompGen.st_of stage o' fp', out).
+Proof. exact DecompGen.gen_decompress_ok_inv. Qed.
+Print Assumptions C05_gen_decompress_is_model_call.
